@@ -127,6 +127,30 @@ Theorem C13_arp_tha_irrelevant : forall s intf mac f tha,
   arp_process_frame s intf mac (mk_arp_frame (f_eth_dst f) (f_op f) tha (f_target f)) = arp_process_frame s intf mac f.
 Proof. exact arp_frame_tha_irrelevant. Qed.
 
+(* WHICH drop label a responder reports for a packet it does not answer is free when several reasons
+   apply (a reply addressed to another station is "a reply" and "not for us"; a solicitation for a
+   foreign address without source link-layer option is "not ours" and "no source address"): the
+   oracle accepts every label among the applicable ones ([arp_reasons] / [ndp_reasons], [admissible]).
+   That freedom cannot change whether the packet is answered: any admissible label is DNone exactly
+   when the model answers; and the label the model itself reports is admissible. *)
+Theorem C13_arp_label_free : forall s intf mac op dst t d,
+  admissible (arp_reasons s intf mac op dst t) d = true ->
+  (d = DNone <-> arp_process s intf mac op dst t = DNone).
+Proof. exact arp_label_free. Qed.
+
+Theorem C13_arp_model_label_admissible : forall s intf mac op dst t,
+  admissible (arp_reasons s intf mac op dst t) (arp_process s intf mac op dst t) = true.
+Proof. exact arp_process_admissible. Qed.
+
+Theorem C13_ndp_label_free : forall s intf ns ll t d,
+  admissible (ndp_reasons s intf ns ll t) d = true ->
+  (d = DNone <-> ndp_process s intf ns ll t = DNone).
+Proof. exact ndp_label_free. Qed.
+
+Theorem C13_ndp_model_label_admissible : forall s intf ns ll t,
+  admissible (ndp_reasons s intf ns ll t) (ndp_process s intf ns ll t) = true.
+Proof. exact ndp_process_admissible. Qed.
+
 Theorem C13_ndp_reply_iff : forall s intf ns ll t,
   ndp_process s intf ns ll t = DNone <-> ns = true /\ ll = true /\ should_announce s t intf = DNone.
 Proof. exact ndp_reply_iff. Qed.
